@@ -3,3 +3,5 @@
 package syntax
 
 const verifNoRewrites = false
+
+const verifNoNonboundaryAtomic = false
